@@ -161,6 +161,13 @@ FAMILIES = {
         runs={"quick": [dict(mode="bfs", max_nodes=3, split=2), dict(mode="sim", max_nodes=6, min_nodes=3, num=6000, depth=26, procs=6, sharing=True)],
               "thorough": [dict(mode="bfs", max_nodes=4, split=8), dict(mode="sim", max_nodes=7, min_nodes=3, num=40000, depth=32, procs=12, sharing=True)]},
         shards=[["ds"]], shard_defs={"ds": "SK_ds"}),
+    "shadowsection": dict(
+        consts=dict(Raises="NoRaises", Kinds="FSH_Kinds", Paths="FSH_Paths", Consts="None0", Tmpls="None0",
+                    Fns="None0", Bodies="FK_BodiesB", DispVals="NoSeq", Preds="None0", Presets="FSH_Presets",
+                    MapPaths="None0", Leaves="FSH_Leaves", Cbs="NoCb"),
+        sharing=False,
+        runs={"quick": [dict(mode="bfs", max_nodes=4)], "thorough": [dict(mode="bfs", max_nodes=5, split=4)]},
+        shards=[["ds"], ["with"]], shard_defs={"ds": "SK_ds", "with": "SK_with"}),
     "classes": dict(
         consts=dict(Raises="NoRaises", Kinds="FL_Kinds", Paths="FL_Paths", Consts="FL_Consts", Tmpls="None0",
                     Fns="None0", Bodies="FL_Bodies", DispVals="NoSeq", Preds="None0", Presets="None0",
